@@ -1,7 +1,7 @@
 """C02 - image manifests survive a write/read cycle unchanged (spec-space BFS, deviation bound k)."""
 from mc.build import im as B
 from mc.core import explorer
-from mc.core.util import diff
+from mc.core.util import diff, exc_name
 
 ID = "C02"
 LEVEL = "model_checking"
@@ -36,13 +36,13 @@ def oracle(spec, obj):
     try:
         text = obj.dumps()
     except (ValueError, TypeError) as exc:
-        return "refused", ["dumps: %s" % type(exc).__name__]
+        return "refused", ["dumps: %s" % exc_name(exc)]
     want = B.expected_observation(spec)
     back = pi.Images()
     try:
         back.loads(text)
     except Exception as exc:                                            # noqa
-        return "bad", ["the written manifest cannot be read back: %s: %s" % (type(exc).__name__, str(exc)[:160])]
+        return "bad", ["the written manifest cannot be read back: %s: %s" % (exc_name(exc), str(exc)[:160])]
     d = diff(B.observe(back), want)
     if d:
         problems.append("re-read manifest differs from what was written (observed != expected): " + "; ".join(d))
@@ -50,7 +50,7 @@ def oracle(spec, obj):
         if back.dumps() != text:
             problems.append("second write is not byte-identical")
     except Exception as exc:                                            # noqa
-        problems.append("re-read manifest cannot be written: %s" % type(exc).__name__)
+        problems.append("re-read manifest cannot be written: %s" % exc_name(exc))
     # the same cycle through ONE open file handle: dump(handle) then load(handle), no seek by the caller
     import io
     handle = io.StringIO()
@@ -61,7 +61,7 @@ def oracle(spec, obj):
         if diff(B.observe(again), want):
             problems.append("dump(handle) + load(same handle) gives a different manifest")
     except Exception as exc:                                            # noqa
-        problems.append("dump(handle) + load(same handle) failed: %s" % type(exc).__name__)
+        problems.append("dump(handle) + load(same handle) failed: %s" % exc_name(exc))
     return ("bad" if problems else "ok"), problems
 
 
@@ -79,15 +79,15 @@ def eval_case(case):
             except (ValueError, TypeError):
                 raise
             except Exception as exc:                                    # noqa
-                return {"status": "bad", "problems": ["the parent's written file cannot be read back: %s" % type(exc).__name__]}
+                return {"status": "bad", "problems": ["the parent's written file cannot be read back: %s" % exc_name(exc)]}
             B.apply_obj(obj, case["edits"][-1], parent)
     except (ValueError, TypeError) as exc:
-        return {"status": "refused", "problems": ["build: %s" % type(exc).__name__]}
+        return {"status": "refused", "problems": ["build: %s" % exc_name(exc)]}
     except (KeyError, IndexError, AttributeError) as exc:
         if case["mode"] == "scratch":
             raise
         return {"status": "bad", "problems": ["the re-read parent object does not hold what was written to it, the next "
-                                              "edit cannot be applied: %s" % type(exc).__name__]}
+                                              "edit cannot be applied: %s" % exc_name(exc)]}
     status, problems = oracle(spec, obj)
     return {"status": status, "problems": problems}
 
